@@ -269,6 +269,23 @@ func (c *FnCtx) specCall(st *State, fn *ssa.Function, args []*Term) []*Term {
 		c.specDepth = map[*ssa.Function]int{}
 		c.specSeen = map[string]bool{}
 	}
+	if gfc := c.eng.ld.byFn[fn]; gfc != nil && len(gfc.Ensures) > 0 && !(fn == c.top) {
+		ck := fmt.Sprintf("contract@%d", out[0].id)
+		if !c.specSeen[ck] {
+			c.specSeen[ck] = true
+			c.eng.usedSpecContracts[fn] = true
+			// the function's contract (verified separately, by induction) holds for this application
+			pre := []*Term{}
+			for _, rq := range gfc.Requires {
+				pre = append(pre, c.evalGhost(st, c.eng.ld.GhostFunc(rq.Fn), args))
+			}
+			pargs := append(append([]*Term{}, args...), out...)
+			for _, en := range gfc.Ensures {
+				r := c.evalGhost(st, c.eng.ld.GhostFunc(en.Fn), pargs)
+				c.addFactT(&State{pc: ts.Bool(true)}, out[0], ts.Implies(ts.And(pre...), r))
+			}
+		}
+	}
 	key := fmt.Sprintf("%d@%d", out[0].id, c.specDepth[fn])
 	if c.specDepth[fn] < c.eng.fuel && !c.specSeen[key] {
 		c.specSeen[key] = true
@@ -386,6 +403,11 @@ func (c *FnCtx) staticCall(fr *Frame, st *State, x *ssa.Call, callee *ssa.Functi
 			c.setResult(fr, x, res)
 			return
 		}
+		if gfc := c.eng.ld.byFn[callee]; gfc != nil && callee == c.top && len(c.stack) >= 1 && c.stack[0] == callee && c.noObl == 0 {
+			// a specification function verified against its own contract: the recursive call is the induction hypothesis
+			c.setResult(fr, x, c.callContract(fr, st, x, callee, gfc, args))
+			return
+		}
 		if !fr.ghost && c.noObl == 0 {
 			unsupported("ghost function %s called from real code", callee)
 		}
@@ -481,12 +503,15 @@ func (c *FnCtx) callContract(fr *Frame, st *State, x *ssa.Call, callee *ssa.Func
 	}
 	pargs := append(append(append([]*Term{}, args...), res...), olds...)
 	savedBase := c.freshBase
+	savedOld := c.oldState
+	c.oldState = pre
 	c.freshBase = pre.wm // "fresh" in the callee's postcondition: allocated during the call
 	for _, en := range fc.Ensures {
 		r := c.evalGhost(st, e.ld.GhostFunc(en.Fn), pargs)
 		c.addFact(st, r)
 	}
 	c.freshBase = savedBase
+	c.oldState = savedOld
 	if fc.Trusted {
 		c.trusted["trusted contract (assumed, body not verified): "+fc.Name] = true
 	}
